@@ -16,6 +16,8 @@
   `new_connections`; the per-address counters also count those.
 -/
 import Mhd.Proofs.LimitsTrace
+import Mhd.Proofs.LimitsResp
+import Mhd.Proofs.LimitsFree
 
 namespace Mhd.C09
 open Mhd.Limits
@@ -69,6 +71,25 @@ theorem capacity_restored (cfg : Cfg) (ops : List Op) :
   · have := h.ip a
     simp only [tot, h1, h2, h3, h4, mu_nil] at this
     by_cases hg : s.cfg.perIp = 0 ∨ a = 0 <;> simp [hg] at this <;> exact this
+
+/-- Closing every connection and one (cleanup) round restores the capacity: in any reachable
+    state in which no connection is waiting in `new_connections` or suspended and every
+    active connection's client has closed (no unanswered request), one event-loop round leaves
+    every list empty and both kinds of counters at zero. -/
+theorem close_all_then_round (cfg : Cfg) (ops : List Op) :
+    let s := (run (St.init cfg) ops).1
+    s.newL = [] → s.susp = [] → (∀ c ∈ s.active, c.req = none ∧ c.clientClosed = true) →
+    let s' := (round s).1
+    (s'.newL = [] ∧ s'.active = [] ∧ s'.susp = [] ∧ s'.cleanup = []) ∧ s'.connections = 0 ∧ ∀ a, s'.ipCount a = 0 := by
+  intro s h1 h2 h3 s'
+  have he := round_closes_all s h1 h2 h3
+  obtain ⟨e1, e2, e3, e4⟩ := he
+  have hinv : Inv s' := round_inv s (run_inv cfg ops)
+  refine ⟨⟨e1, e2, e3, e4⟩, ?_, fun a => ?_⟩
+  · have := hinv.conns; simpa [s', e2, e3, e4] using this
+  · have := hinv.ip a
+    simp only [tot, s', e1, e2, e3, e4, mu_nil] at this
+    by_cases hg : (round s).1.cfg.perIp = 0 ∨ a = 0 <;> simp [hg] at this <;> exact this
 
 /-- Stopping the daemon after any history (`MHD_stop_daemon` called once, suspended connections
     resumed before as the API demands — otherwise the C code MHD_PANICs, `stopSuspended`):
@@ -132,6 +153,56 @@ theorem lifecycle_balance (cfg : Cfg) (ops : List Op) (c : Nat) :
   · rw [a2]
     simp [nu, List.countP_eq_length_filter, List.filter_append]; omega
 
+/-- Response lifetime, refinement to the multiset of holders: in every reachable state the
+    reference count of every response object equals the application's own reference (if it
+    still has it) plus the number of connections that have the response queued; the object is
+    freed exactly when that number is zero; a connection never holds an unknown or freed
+    response; and the faults "use after free", "counter underflow", "unknown response" are
+    unreachable (so nothing uses a response after its free callback). -/
+theorem refcount_refines (cfg : Cfg) (ops : List Op) (r : Nat) :
+    let s := (run (St.init cfg) ops).1
+    let holders := ((s.newL ++ s.active ++ s.susp ++ s.cleanup).filter (fun c => c.resp == some r)).length
+    (match s.resps r with
+      | none => holders = 0
+      | some x => x.rc = (if x.app then 1 else 0) + holders ∧ (x.freed = true ↔ x.rc = 0)) ∧
+    s.fault ≠ some .useAfterFree ∧ s.fault ≠ some .rcUnderflow ∧ s.fault ≠ some .unknownResp := by
+  intro s holders
+  have h : RInv s := run_rinv ops _ (init_rinv cfg)
+  have hh : Mhd.Limits.holders r s + hold r [] = holders := by
+    simp [Mhd.Limits.holders, holders, hold, List.countP_eq_length_filter, List.filter_append, Nat.add_assoc]
+  have := h.rt r
+  rw [hh] at this
+  refine ⟨?_, h.rf.2.1, h.rf.2.2, h.rf.1⟩
+  unfold RT1 appN at this
+  exact this
+
+/-- The free callback runs exactly at the transition of the counter from 1 to 0 and the object is
+    then marked freed (local specification of `MHD_destroy_response` on a live object); a freed
+    object can never be queued again. -/
+theorem free_callback_at_zero (R : RespTab) (r : Nat) (x : Resp) (hx : R.tab r = some x)
+    (hnf : x.freed = false) (hrc : 1 ≤ x.rc) :
+    (release R r).2 = (if x.rc = 1 ∧ x.hasCb = true then [Ev.freeCb r] else []) ∧
+    (release R r).1.tab r = some { x with rc := x.rc - 1, freed := decide (x.rc = 1) } ∧
+    (release R r).1.fault = R.fault ∧
+    (∀ R' x', R'.tab r = some x' → x'.freed = true → acquire R' r = none) :=
+  ⟨(release_spec R r x hx hnf hrc).1, (release_spec R r x hx hnf hrc).2.1, (release_spec R r x hx hnf hrc).2.2,
+   fun R' x' h1 h2 => acquire_freed R' r x' h1 h2⟩
+
+/-- Over every history the free callback of a response has run exactly once if the object has
+    been freed (and has a callback), and not at all otherwise — together with
+    `refcount_refines` (freed ⇔ counter 0 ⇔ neither the application nor any connection holds
+    it): exactly once, exactly when the count reaches zero, and no use follows. -/
+theorem free_callback_exactly_once (cfg : Cfg) (ops : List Op) (r : Nat) :
+    (run (St.init cfg) ops).2.count (.freeCb r) = (match (run (St.init cfg) ops).1.resps r with
+      | some x => if x.freed && x.hasCb then 1 else 0
+      | none => 0) := by
+  have h := run_sfb r ops (St.init cfg)
+  unfold SFB FB at h
+  have h0 : phi r (St.init cfg).resps = 0 := by simp [phi, St.init]
+  rw [h0] at h
+  unfold phi frc at h
+  cases hx : (run (St.init cfg) ops).1.resps r <;> simp only [hx] at h ⊢ <;> simpa using h
+
 /-- Non-vacuity: a history with a refused arrival (global limit), a per-address refusal, a
     policy refusal, a failed allocation, a suspended and an upgraded connection reaches a
     state with one active, one suspended and one upgraded connection. -/
@@ -160,6 +231,18 @@ example : let r := run (St.init demoCfg) (demoOps ++ [.upClose 4, .resume 0])
     r.1.shutdown = false ∧ r.1.fault = none ∧ q.1.fault = none ∧ r.1.nextId = 7 ∧
     (q.2.filter (fun e => match e with | .fdClose _ => true | _ => false)).length = 3 ∧
     (q.2.filter (fun e => match e with | .connClose _ => true | _ => false)).length = 3 := by
+  decide
+
+/-- Non-vacuity of `refcount_refines`: a shared response held by the application and by a
+    connection whose client does not read (counter 2), then by the connection alone (counter 1,
+    not freed), then released by the connection's close: freed, free callback emitted once. -/
+example :
+    let ops : List Op := [.respCreate 2 true true false, .arrive 1 true true, .hold 0, .req 0 (.reply 2 false), .round]
+    let s1 := (run (St.init demoCfg) ops).1
+    let s2 := (run (St.init demoCfg) (ops ++ [.respDrop 2])).1
+    let r3 := run (St.init demoCfg) (ops ++ [.respDrop 2, .clientClose 0, .round])
+    (s1.resps 2).map (·.rc) = some 2 ∧ (s2.resps 2).map (fun x => (x.rc, x.freed)) = some (1, false) ∧
+    (r3.1.resps 2).map (fun x => (x.rc, x.freed)) = some (0, true) ∧ r3.2.count (.freeCb 2) = 1 ∧ r3.1.fault = none := by
   decide
 
 end Mhd.C09
